@@ -4,12 +4,38 @@
 #include <fstream>
 #include <regex>
 #include <ctime>
+#include <thread>
 
 namespace {
 
 bool wellFormed(const std::string &id) {
     static const std::regex re("^[0-9a-f]{8}-[0-9a-f]{4}-[0-9a-f]{4}-[0-9a-f]{4}-[0-9a-f]{12}$");
     return std::regex_match(id, re);
+}
+
+// creates n entities of all kinds in `f` on behalf of execution context `proc` and logs their ids
+void createEntities(nix::File &f, const std::string &file, const std::string &proc, long n, std::ostream &out, bool logFileId, const std::string &batch = "") {
+    auto emit = [&](const std::string &kind, const std::string &name, const std::string &id) {
+        out << json{{"e", "CreateId"}, {"p", proc}, {"id", id}, {"kind", kind}, {"name", name}, {"file", file}, {"owner", proc + batch + "_b"}, {"wellformed", wellFormed(id)}}.dump() << "\n"; };
+    if (logFileId) emit("file", "", f.id());
+    std::string tagp = proc + batch + "_";
+    nix::Block b = f.createBlock(tagp + "b", "t"); emit("block", b.name(), b.id());
+    nix::Section s = f.createSection(tagp + "s", "t"); emit("section", s.name(), s.id());
+    nix::DataArray a0 = b.createDataArray(tagp + "a0", "t", nix::DataType::Double, nix::NDSize({2})); emit("array", a0.name(), a0.id());
+    for (long i = 0; i < n; i++) {
+        std::string nm = tagp + std::to_string(i);
+        switch (i % 9) {
+        case 0: { auto x = b.createDataArray(nm, "t", nix::DataType::Double, nix::NDSize({1})); emit("array", nm, x.id()); break; }
+        case 1: { auto x = b.createTag(nm, "t", {1.0}); emit("tag", nm, x.id()); auto ft = x.createFeature(a0, nix::LinkType::Tagged); emit("feature", "", ft.id()); break; }
+        case 2: { auto x = b.createMultiTag(nm, "t", a0); emit("mtag", nm, x.id()); break; }
+        case 3: { auto x = b.createGroup(nm, "t"); emit("group", nm, x.id()); break; }
+        case 4: { auto x = b.createSource(nm, "t"); emit("source", nm, x.id()); auto y = x.createSource(nm, "t"); emit("source", "", y.id()); break; }
+        case 5: { auto x = s.createSection(nm, "t"); emit("section", "", x.id()); break; }
+        case 6: { auto x = s.createProperty(nm, nix::Variant(1.0)); emit("prop", "", x.id()); break; }
+        case 7: { std::vector<nix::Column> cols = {{"c", "", nix::DataType::Double}}; auto x = b.createDataFrame(nm, "t", cols); emit("frame", nm, x.id()); break; }
+        default: { auto x = f.createBlock(nm, "t"); emit("block", nm, x.id()); break; }
+        }
+    }
 }
 
 // one writer process: opens (or creates) `file`, creates n entities of all kinds, logs the ids
@@ -19,27 +45,62 @@ void writer(const std::string &file, bool create, const std::string &proc, long 
     out << json{{"e", "Start"}, {"p", proc}, {"sec", (long) time(nullptr)}}.dump() << "\n";
     try {
         nix::File f = nix::File::open(file, create ? nix::FileMode::Overwrite : nix::FileMode::ReadWrite);
-        auto emit = [&](const std::string &kind, const std::string &name, const std::string &id) {
-            out << json{{"e", "CreateId"}, {"p", proc}, {"id", id}, {"kind", kind}, {"name", name}, {"file", file}, {"wellformed", wellFormed(id)}}.dump() << "\n"; };
-        if (create) emit("file", "", f.id());
-        std::string tagp = proc + "_";
-        nix::Block b = f.createBlock(tagp + "b", "t"); emit("block", b.name(), b.id());
-        nix::Section s = f.createSection(tagp + "s", "t"); emit("section", s.name(), s.id());
-        nix::DataArray a0 = b.createDataArray(tagp + "a0", "t", nix::DataType::Double, nix::NDSize({2})); emit("array", a0.name(), a0.id());
-        for (long i = 0; i < n; i++) {
-            std::string nm = tagp + std::to_string(i);
-            switch (i % 9) {
-            case 0: { auto x = b.createDataArray(nm, "t", nix::DataType::Double, nix::NDSize({1})); emit("array", nm, x.id()); break; }
-            case 1: { auto x = b.createTag(nm, "t", {1.0}); emit("tag", nm, x.id()); auto ft = x.createFeature(a0, nix::LinkType::Tagged); emit("feature", "", ft.id()); break; }
-            case 2: { auto x = b.createMultiTag(nm, "t", a0); emit("mtag", nm, x.id()); break; }
-            case 3: { auto x = b.createGroup(nm, "t"); emit("group", nm, x.id()); break; }
-            case 4: { auto x = b.createSource(nm, "t"); emit("source", nm, x.id()); auto y = x.createSource(nm, "t"); emit("source", "", y.id()); break; }
-            case 5: { auto x = s.createSection(nm, "t"); emit("section", "", x.id()); break; }
-            case 6: { auto x = s.createProperty(nm, nix::Variant(1.0)); emit("prop", "", x.id()); break; }
-            case 7: { std::vector<nix::Column> cols = {{"c", "", nix::DataType::Double}}; auto x = b.createDataFrame(nm, "t", cols); emit("frame", nm, x.id()); break; }
-            default: { auto x = f.createBlock(nm, "t"); emit("block", nm, x.id()); break; }
+        createEntities(f, file, proc, n, out, create);
+        f.close();
+    } catch (const std::exception &e) { out << json{{"e", "Error"}, {"p", proc}, {"what", e.what()}}.dump() << "\n"; }
+    out.close();
+    _exit(0);
+}
+
+// a process that has already created ids forks children WITHOUT exec: the children continue with a copy of the parent's memory
+// (whatever generator state the library keeps is duplicated); parent and children go on creating entities (children in own files)
+void forker(Ctx &c, const std::string &file, long K, long n, const std::string &log) {
+    std::ofstream out(log);
+    std::string proc = "p0";
+    out << json{{"e", "Start"}, {"p", proc}, {"sec", (long) time(nullptr)}}.dump() << "\n";
+    try {
+        nix::File f = nix::File::open(file, nix::FileMode::Overwrite);
+        createEntities(f, file, proc, n, out, true);
+        out.flush();
+        std::vector<pid_t> pids;
+        for (long k = 0; k < K; k++) {
+            pid_t pid = fork();
+            if (pid == 0) {
+                std::string me = "p0c" + std::to_string(k), myfile = c.path("ids_fork_" + std::to_string(k) + ".nix");
+                std::ofstream o2(c.path("ids_fork_" + std::to_string(k) + ".log"));
+                o2 << json{{"e", "Fork"}, {"p", me}, {"parent", proc}}.dump() << "\n";
+                try { nix::File g = nix::File::open(myfile, nix::FileMode::Overwrite); createEntities(g, myfile, me, n, o2, true); g.close(); }
+                catch (const std::exception &e) { o2 << json{{"e", "Error"}, {"p", me}, {"what", e.what()}}.dump() << "\n"; }
+                o2.close();
+                _exit(0);       // the inherited copy of the parent's open file is dropped without writing
             }
+            pids.push_back(pid);
         }
+        createEntities(f, file, proc, n, out, false, "x");      // the parent goes on in the same file (second batch, own names)
+        for (pid_t pid : pids) { int st; waitpid(pid, &st, 0); }
+        f.close();
+    } catch (const std::exception &e) { out << json{{"e", "Error"}, {"p", proc}, {"what", e.what()}}.dump() << "\n"; }
+    out.close();
+    _exit(0);
+}
+
+// one process whose threads create entities one after the other in the same file (HDF5 is used serially)
+void threader(const std::string &file, long K, long n, const std::string &log) {
+    std::ofstream out(log);
+    std::string proc = "p0";
+    out << json{{"e", "Start"}, {"p", proc}, {"sec", (long) time(nullptr)}}.dump() << "\n";
+    try {
+        nix::File f = nix::File::open(file, nix::FileMode::Overwrite);
+        createEntities(f, file, proc, n, out, true);
+        for (long k = 0; k < K; k++) {
+            std::string me = "p0t" + std::to_string(k);
+            std::string err;
+            std::thread th([&] { try { out << json{{"e", "Thread"}, {"p", me}, {"parent", proc}}.dump() << "\n"; createEntities(f, file, me, n, out, false); }
+                                 catch (const std::exception &e) { err = e.what(); } });
+            th.join();
+            if (!err.empty()) out << json{{"e", "Error"}, {"p", me}, {"what", err}}.dump() << "\n";
+        }
+        createEntities(f, file, proc, n, out, false, "x");
         f.close();
     } catch (const std::exception &e) { out << json{{"e", "Error"}, {"p", proc}, {"what", e.what()}}.dump() << "\n"; }
     out.close();
@@ -80,6 +141,13 @@ json handle(Ctx &c, const json &rec) {
                 int st; waitpid(pid, &st, 0);
             }
         }
+        else if (sched == "fork" || sched == "threads") {
+            std::string log = c.path("ids_main.log"); logs.push_back(log);
+            if (sched == "fork") for (long k = 0; k < K; k++) logs.push_back(c.path("ids_fork_" + std::to_string(k) + ".log"));
+            pid_t pid = fork();
+            if (pid == 0) { if (sched == "fork") forker(c, c.path("ids_main.nix"), K, N, log); else threader(c.path("ids_main.nix"), K, N, log); }
+            int st; waitpid(pid, &st, 0);
+        }
         for (auto &l : logs) collect(l);
         if (sched != "same_second") break;
         // the schedule class is only realised if all writers started within one second
@@ -96,7 +164,7 @@ json handle(Ctx &c, const json &rec) {
         nix::File &f = files[file];
         std::string got;
         try {
-            std::string owner = e["p"].get<std::string>() + "_b";
+            std::string owner = e.value("owner", e["p"].get<std::string>() + "_b");
             if (kind == "block") got = f.getBlock(name).id();
             else if (kind == "section") got = f.getSection(name).id();
             else { nix::Block b = f.getBlock(owner);
